@@ -25,5 +25,17 @@ def run():
         if os.path.exists(p):
             common.sh([p], timeout=1200, check=True)
     common.cargo_build("harness", "default")
+    # other engines (each guarded: a missing piece must not break the engines that exist)
+    root = common.ROOT
+    if os.path.exists(os.path.join(root, "harness-intern")):
+        common.cargo_build("harness-intern", "default")
+        common.sh([os.path.join(root, "ocaml/intern/build.sh"), root], timeout=900, check=True)
+    if os.path.exists(os.path.join(root, "harness-proto")):
+        common.sh([os.path.join(root, "ocaml/proto/build.sh")], timeout=900, check=True)
+        common.cargo_build("harness-proto", "shuttle")
+        common.sh(["cargo", "build", "--offline", "--release", "--no-default-features"],
+                  cwd=os.path.join(root, "harness-proto"), timeout=2400, check=True,
+                  env={"CARGO_TARGET_DIR": os.path.join(common.BUILD, "target-std"),
+                       "RUSTFLAGS": f"--cfg {common.GUARD}"})
     print("setup ok")
     return 0
